@@ -3,6 +3,7 @@ package main
 import (
 	"context"
 	"fmt"
+	"strconv"
 	"strings"
 	"sync"
 	"time"
@@ -217,8 +218,9 @@ func waitUnsub(log *evlog.Log, name string) {
 	}
 }
 
-// hasUnsubAfterLastSub: the log contains, after the last subscribe of `name`, the completion of an unsubscribe
-// (the decrement followed by either the read-unlock or the caster subtraction).
+// hasUnsubAfterLastSub: the log contains, after the last subscribe of `name`, the COMPLETION of an unsubscribe: the
+// decrement followed by the read-unlock, or by the caster subtraction and — when that subtraction landed on an armed
+// word (lo = hi + MaxInt32), so that the call still has to receive its copy — by the absorbed receive.
 func hasUnsubAfterLastSub(lines []string, name string) bool {
 	last := -1
 	for i, l := range lines {
@@ -229,8 +231,21 @@ func hasUnsubAfterLastSub(lines []string, name string) bool {
 	if last < 0 {
 		return false
 	}
+	needAbsorb := false
 	for _, l := range lines[last:] {
-		if strings.HasPrefix(l, "pubsub.unsub.runlock "+name+" ") || strings.HasPrefix(l, "caster.add.neg "+name+" ") {
+		if strings.HasPrefix(l, "pubsub.unsub.runlock "+name+" ") {
+			return true
+		}
+		if strings.HasPrefix(l, "caster.add.neg "+name+" ") {
+			f := strings.Fields(l)
+			w, _ := strconv.ParseUint(strings.TrimPrefix(f[len(f)-1], "w="), 10, 64)
+			hi, lo := uint32(w>>32), uint32(w)
+			if lo == hi {
+				return true
+			}
+			needAbsorb = true
+		}
+		if needAbsorb && strings.HasPrefix(l, "caster.add.absorbed "+name+" ") {
 			return true
 		}
 	}
